@@ -172,5 +172,5 @@ package generic
 //@   ensures #a-driver-of-its-own result.1 == nil ==> isnew(result.0)
 //@   loop 1 invariant -1 <= rangeindex && rangeindex < len(opts) && isnew(d) && d != nil
 //@   loop 1 invariant #every-option-applied-in-order optlog == old(optlog) ++ applied(opts, box("*generic.Driver", d), rangeindex + 1)
-//@   at call! NewTransport#1 assert #the-transport-gets-the-host-the-selected-type-and-all-options arg1 == host && arg2 == d.TransportType && arg3 === opts && arg0 == d.Logger && d.Logger != nil
+//@   at call! NewTransport#1 assert #the-transport-gets-the-host-the-selected-type-and-all-options arg1 == host && arg2 == d.TransportType && arg3 === opts && arg0 == d.Logger && d.Logger != nil && optlog == old(optlog) ++ applied(opts, box("*generic.Driver", d), len(opts))
 //@   at call! NewChannel#1 assert #the-channel-gets-the-transport-and-all-options arg1 == d.Transport && arg2 === opts && arg0 == d.Logger
